@@ -96,8 +96,8 @@ type c16Case struct {
 	Out      []string `json:"out"`
 	Fail     bool     `json:"fail,omitempty"` // the host function reports an error (when it can)
 	Reenter  bool     `json:"reenter,omitempty"`
-	Name     string   `json:"name,omitempty"`  // the name registered and called ("" = probe); may be the name of a built-in
-	Prior    bool     `json:"prior,omitempty"` // a raw handler is registered under the name first: a refused registration leaves it in place
+	Name     string   `json:"name,omitempty"`    // the name registered and called ("" = probe); may be the name of a built-in
+	Prior    bool     `json:"prior,omitempty"`   // a raw handler is registered under the name first: a refused registration leaves it in place
 	NilChan  bool     `json:"nilchan,omitempty"` // a channel result is the nil channel (what a handler returns when it forgot to make one)
 	Args     []mval   `json:"args"`
 }
